@@ -108,6 +108,12 @@ func main() {
 				}
 				return true
 			})
+			if want["swapcmp"] {
+				swapComparisons(f)
+			}
+			if want["namedres"] {
+				nameResults(f)
+			}
 			if want["capture"] {
 				captureParams(f)
 			}
@@ -309,4 +315,68 @@ func captureParams(f *ast.File) {
 		first := &ast.AssignStmt{Lhs: []ast.Expr{ast.NewIdent("_")}, Tok: token.ASSIGN, Rhs: []ast.Expr{lit}}
 		fd.Body.List = append([]ast.Stmt{first}, fd.Body.List...)
 	}
+}
+
+
+// nameResults gives every unnamed result list names (`func f() (T, error)` → `func f() (zzRes0 T, zzRes1 error)`); the
+// returns stay explicit, so nothing changes at run time, but go/ssa now treats the results as variables.
+func nameResults(f *ast.File) {
+	n := 0
+	fix := func(ft *ast.FuncType) {
+		if ft == nil || ft.Results == nil {
+			return
+		}
+		for _, fld := range ft.Results.List {
+			if len(fld.Names) > 0 {
+				return
+			}
+		}
+		for _, fld := range ft.Results.List {
+			fld.Names = []*ast.Ident{ast.NewIdent(fmt.Sprintf("zzRes%d", n))}
+			n++
+		}
+	}
+	ast.Inspect(f, func(nd ast.Node) bool {
+		switch x := nd.(type) {
+		case *ast.FuncDecl:
+			if x.Body != nil {
+				fix(x.Type)
+			}
+		case *ast.FuncLit:
+			fix(x.Type)
+		}
+		return true
+	})
+}
+
+
+// swapComparisons writes every comparison the other way round (`a < b` → `b > a`, `x == nil` → `nil == x`) where one
+// side is a plain identifier, selector or literal (so that no evaluation order that could matter changes).
+func swapComparisons(f *ast.File) {
+	pure := func(e ast.Expr) bool {
+		for {
+			switch x := e.(type) {
+			case *ast.ParenExpr:
+				e = x.X
+				continue
+			case *ast.Ident, *ast.BasicLit:
+				return true
+			case *ast.SelectorExpr:
+				e = x.X
+				continue
+			}
+			return false
+		}
+	}
+	mirror := map[token.Token]token.Token{token.EQL: token.EQL, token.NEQ: token.NEQ, token.LSS: token.GTR, token.GTR: token.LSS, token.LEQ: token.GEQ, token.GEQ: token.LEQ}
+	ast.Inspect(f, func(nd ast.Node) bool {
+		b, ok := nd.(*ast.BinaryExpr)
+		if !ok {
+			return true
+		}
+		if m, isCmp := mirror[b.Op]; isCmp && (pure(b.X) || pure(b.Y)) {
+			b.X, b.Y, b.Op = b.Y, b.X, m
+		}
+		return true
+	})
 }
